@@ -202,3 +202,7 @@ def run(ctx: Ctx) -> None:
 
 def replay(ctx: Ctx, case: Dict[str, Any]) -> None:
     run_case(ctx, case)
+
+
+def blend_case(rng) -> Dict[str, Any]:
+    return gen_case(rng)
